@@ -32,6 +32,9 @@ type c10Cell struct {
 	PreState string    `json:"pre_state"`       // absent, existing, directory, missing-parent, dev-full
 	Fault    string    `json:"input_fault"`     // none, missing-file, directory-as-input, empty-glob, invalid-glob
 	WantOK   bool      `json:"want_ok"`         // the configuration class itself is acceptable under these flags
+	// Companion adds a second, valid and self-sufficient input file next to the main one: "" (none), "before", "after"
+	// (own -i pattern before/after the main one) or "glob" (one pattern matching both). It never changes the expected outcome.
+	Companion string `json:"companion,omitempty"`
 }
 
 var c10Classes = []struct {
@@ -59,6 +62,10 @@ var c10Classes = []struct {
 	{"nothing-processed", "", func(sut.Flags) bool { return false }},
 }
 
+const c10Companion = "parameters: {companionOnly: 7}\nservices:\n  companionSvc: {constructor: fx/lib.NewObj, arguments: [\"%companionOnly%\"]}\n"
+
+var c10Companions = []string{"", "before", "after", "glob"}
+
 var c10PreStates = []string{"absent", "existing", "directory", "missing-parent", "dev-full"}
 var c10Faults = []string{"none", "missing-file", "directory-as-input", "empty-glob", "invalid-glob"}
 
@@ -76,6 +83,17 @@ func c10Eval(t tb, c c10Cell) {
 	if c.Class != "nothing-processed" {
 		_ = os.WriteFile(filepath.Join(dir, "main.yaml"), []byte(c.YAML), 0o644)
 		pats = append(pats, "main.yaml")
+	}
+	if c.Companion != "" && c.Class != "nothing-processed" {
+		_ = os.WriteFile(filepath.Join(dir, "m-companion.yaml"), []byte(c10Companion), 0o644)
+		switch c.Companion {
+		case "before":
+			pats = append([]string{"m-companion.yaml"}, pats...)
+		case "after":
+			pats = append(pats, "m-companion.yaml")
+		case "glob":
+			pats[0] = "m*.yaml"
+		}
 	}
 	if c.YAML2 != "" {
 		_ = os.WriteFile(filepath.Join(dir, "second.yaml"), []byte(c.YAML2), 0o644)
@@ -142,9 +160,10 @@ func c10Eval(t tb, c c10Cell) {
 	col.Label("class:" + c.Class)
 	col.Label("pre-state:" + c.PreState)
 	col.Label("input-fault:" + c.Fault)
+	col.Label("companion-file:" + c.Companion)
 	col.Label(fmt.Sprintf("expect-ok:%v", wantOK))
 	fail := func(key, what string) {
-		violation(t, key, fmt.Sprintf("[class=%s flags=%q pre=%s fault=%s] %s\nstdout tail:\n%s", c.Class, flags.String(), c.PreState, c.Fault, what, tailLines(r.Stdout, 10)), c)
+		violation(t, key, fmt.Sprintf("[class=%s flags=%q pre=%s fault=%s companion=%q] %s\nstdout tail:\n%s", c.Class, flags.String(), c.PreState, c.Fault, c.Companion, what, tailLines(r.Stdout, 10)), c)
 	}
 	if r.TimedOut || (r.Exit != 0 && r.Exit != 1) {
 		fail("exit-status", fmt.Sprintf("exit status %d (timed out: %v) %s", r.Exit, r.TimedOut, oneLine(r.Stderr)))
@@ -270,19 +289,24 @@ func TestC10(t *testing.T) {
 			f := sut.Flags{Stub: fb&1 != 0, IgnoreMissingParams: fb&2 != 0, IgnoreMissingServices: fb&4 != 0}
 			for _, ps := range c10PreStates {
 				for _, fault := range c10Faults {
-					idx++
-					if !ev.Mine(idx) {
-						continue
-					}
-					c10Eval(t, c10Cell{Class: cl.name, YAML: cl.yaml, Flags: f, PreState: ps, Fault: fault, WantOK: cl.ok(f)})
-					if deadlinePassed() {
-						return
+					for _, comp := range c10Companions {
+						if comp != "" && cl.name == "nothing-processed" {
+							continue
+						}
+						idx++
+						if !ev.Mine(idx) {
+							continue
+						}
+						c10Eval(t, c10Cell{Class: cl.name, YAML: cl.yaml, Flags: f, PreState: ps, Fault: fault, WantOK: cl.ok(f), Companion: comp})
+						if deadlinePassed() {
+							return
+						}
 					}
 				}
 			}
 		}
 	}
-	col.Exhaustive(fmt.Sprintf("full matrix: %d configuration classes x 8 flag subsets {--stub, --ignore-missing-params, --ignore-missing-services} x 5 output pre-states x 5 input faults, every cell with and without --quiet", len(c10Classes)))
+	col.Exhaustive(fmt.Sprintf("full matrix: %d configuration classes x 8 flag subsets {--stub, --ignore-missing-params, --ignore-missing-services} x 5 output pre-states x 5 input faults x 4 companion-file arrangements (none / a valid second file before, after, or matched by the same glob), every cell with and without --quiet", len(c10Classes)))
 
 	// random configurations inside random cells
 	setRapidChecks(pick(25, 2000))
@@ -322,7 +346,8 @@ func TestC10(t *testing.T) {
 		a := ref.Analyse(conf)
 		c := c10Cell{Class: "generated", YAML: text, Flags: f,
 			PreState: rapid.SampledFrom(c10PreStates).Draw(rt, "pre"), Fault: rapid.SampledFrom(c10Faults).Draw(rt, "fault"),
-			WantOK: a.Stage(f.IgnoreMissingParams, f.IgnoreMissingServices) == "accept"}
+			WantOK:    a.Stage(f.IgnoreMissingParams, f.IgnoreMissingServices) == "accept",
+			Companion: rapid.SampledFrom(c10Companions).Draw(rt, "companion")}
 		c10Eval(rt, c)
 	})
 	if !deadlinePassed() {
